@@ -14,7 +14,7 @@ package crypki
 //vsym:model context.WithDeadline m17WithDeadline
 //vsym:replay same-harness
 //vsym:expect-cover C17.failover.first-ok C17.failover.later-ok C17.failover.all-failed C17.failover.none-configured
-//vsym:bound H17_failover: 0..3 endpoints (thorough 0..4); per endpoint: unusable target (grpc.NewClient fails), dial error, RPC error, unparsable reply, empty reply, or a reply with 1..2 certificates carrying empty or 1-byte symbolic comments (printable, non-space); two Sign calls on the same signer
+//vsym:bound H17_failover: 0..3 endpoints (thorough 0..4); per endpoint: unusable target (grpc.NewClient fails), dial error, RPC error, unparsable reply, empty reply, or a reply with 1..2 certificates carrying empty or 1-byte symbolic comments (printable, non-space), with or without a final newline; two Sign calls on the same signer
 //vsym:assume grpc dial / RPC and ssh.ParseAuthorizedKey are modelled (arbitrary outcome per endpoint; one key line per call); replay runs real in-process gRPC servers (bufconn) and real ed25519 certificates
 
 import (
@@ -47,6 +47,7 @@ const (
 type s17Endpoint struct {
 	outcome  int
 	ncerts   int
+	noFinalNL bool // the reply does not end in a newline (the last line is still a key line)
 	comments []string
 }
 
@@ -132,6 +133,9 @@ func (c *m17Client) PostUserSSHCertificate(ctx context.Context, in *pb.SSHCertif
 	for i := 0; i < e.ncerts; i++ {
 		text += string([]byte{'K', byte('0' + c.ep), byte('0' + i), ' '}) + e.comments[i] + "\n"
 	}
+	if e.noFinalNL {
+		text = text[:len(text)-1]
+	}
 	return &pb.SSHKey{Key: text}, nil
 }
 
@@ -200,6 +204,9 @@ func (s *n17Server) PostUserSSHCertificate(ctx context.Context, in *pb.SSHCertif
 		} else {
 			text += string(line[:len(line)-1]) + " " + e.comments[i] + "\n"
 		}
+	}
+	if e.noFinalNL {
+		text = text[:len(text)-1]
 	}
 	return &pb.SSHKey{Key: text}, nil
 }
@@ -290,6 +297,7 @@ func H17_failover() {
 		e := s17Endpoint{outcome: vChoose(6, "outcome")}
 		if e.outcome == o17Certs {
 			e.ncerts = 1 + vChoose(2, "ncerts")
+			e.noFinalNL = vChoose(2, "final-newline") == 1
 			for j := 0; j < e.ncerts; j++ {
 				c := vNondetString("comment", vChoose(2, "comment-len"))
 				if len(c) == 1 {
